@@ -924,6 +924,8 @@ def apply(ctx, e, name, ins):
     return _scan(ctx, e, ins)
   if name == 'while':
     return _while(ctx, e, ins)
+  if name == 'shard_map':
+    return _shard_map(ctx, e, ins)
   if name == 'platform_index':
     return np.array(0, dtype=object)
   if name == 'cond':
@@ -1124,6 +1126,46 @@ def _while(ctx, e, ins, max_iter=4096):
       return st
     st = eval_jaxpr(ctx, p['body_jaxpr'].jaxpr, p['body_jaxpr'].consts, *bc, *st)
   raise SXUnsupported('while loop exceeded %d iterations' % max_iter)
+
+
+def _shard_map(ctx, e, ins):
+  """shard_map over a one-axis mesh (what jax.pmap lowers to): run the body once per shard on the block of each input"""
+  p = e.params
+  mesh = p['mesh']
+  names = list(mesh.shape.keys())
+  if len(names) != 1:
+    raise SXUnsupported('shard_map over a multi-axis mesh')
+  ax, n = names[0], mesh.shape[names[0]]
+
+  def dims_of(spec):
+    out = []
+    for d, ent in enumerate(tuple(spec)):
+      ents = ent if isinstance(ent, tuple) else (ent,)
+      if ax in [x for x in ents if x is not None]:
+        out.append(d)
+    return out
+  body = p['jaxpr']
+  outs_per = []
+  for i in range(n):
+    blk = []
+    for a, spec in zip(ins, p['in_specs']):
+      ds = dims_of(spec)
+      sl = [slice(None)] * a.ndim
+      for d in ds:
+        w = a.shape[d] // n
+        sl[d] = slice(i * w, (i + 1) * w)
+      blk.append(a[tuple(sl)])
+    outs_per.append(eval_jaxpr(ctx, body, [], *blk) if not hasattr(body, 'consts') else eval_jaxpr(ctx, body.jaxpr, body.consts, *blk))
+  res = []
+  for k, spec in enumerate(p['out_specs']):
+    ds = dims_of(spec)
+    if not ds:
+      res.append(outs_per[0][k])
+    elif len(ds) == 1:
+      res.append(np.concatenate([o[k] for o in outs_per], axis=ds[0]))
+    else:
+      raise SXUnsupported('shard_map output sharded over several dims')
+  return res
 
 
 def _scatter(ctx, e, name, ins):
